@@ -425,3 +425,46 @@ func MACString(m []byte) string {
 	}
 	return s
 }
+
+// DecodeTransportAs re-decodes the bytes after the IPv4 header as the given protocol, whatever
+// the protocol field of the header says (used when --ipproto overrides the field).
+func (p *Packet) DecodeTransportAs(proto uint8) *Packet {
+	if p.IP == nil {
+		return p
+	}
+	q := &Packet{HasEth: p.HasEth, EthDst: p.EthDst, EthSrc: p.EthSrc, EthType: p.EthType}
+	ip := *p.IP
+	ip.Proto = proto
+	hdr := EncodeIPv4(ip.Src, ip.Dst, proto, p.L4Raw, IPOpts{ID: ip.ID, TTL: ip.TTL, Flags: ip.Flags, FragOff: ip.FragOff, Options: ip.Options, TOS: ip.TOS})
+	_ = q.decodeIPv4(hdr)
+	q.Trailer = p.Trailer
+	return q
+}
+
+// TCPOptionsWellFormed walks the option list of a TCP header.
+func TCPOptionsWellFormed(opts []byte) error {
+	i := 0
+	for i < len(opts) {
+		switch opts[i] {
+		case 0: // end of option list: the rest must be padding
+			for _, b := range opts[i:] {
+				if b != 0 {
+					return fmt.Errorf("non-zero byte after end-of-options")
+				}
+			}
+			return nil
+		case 1:
+			i++
+		default:
+			if i+1 >= len(opts) {
+				return fmt.Errorf("option kind %d without length", opts[i])
+			}
+			l := int(opts[i+1])
+			if l < 2 || i+l > len(opts) {
+				return fmt.Errorf("option kind %d has bad length %d", opts[i], l)
+			}
+			i += l
+		}
+	}
+	return nil
+}
